@@ -346,6 +346,7 @@ Proof.
   assert (Hc : forall s5, nstab h0 s5 (if eff_cancelled s5 (g_scope (groups s5 g)) then s5
                                    else scope_cancel s5 (g_scope (groups s5 g)) false)).
   { intros s5. destruct (eff_cancelled s5 _); [apply nstab_refl|apply nstab_scope_cancel]. }
+  assert (Hsc : forall s5, nstab h0 s5 (scope_cancel s5 (g_scope (groups s5 g)) false)) by (intros s5; apply nstab_scope_cancel).
   assert (Ha : forall e, nstab h0 s4 (upd_group s4 g (add_exc t e))) by (intros e; nby_eq).
   destruct (k_done (tasks s0 t)) as [[v|e|e]|].
   - destruct (k_startfut (tasks s0 t)) as [f|]; [|apply nstab_refl].
@@ -353,17 +354,17 @@ Proof.
   - destruct (k_startfut (tasks s0 t)) as [f|].
     + destruct (f_st (futs s4 f)).
       * apply nstab_fc.
-      * destruct (is_cancel e); [apply Hc|]. eapply nstab_trans; [apply Ha|apply Hc].
-      * destruct (is_cancel e); [apply Hc|]. eapply nstab_trans; [apply Ha|apply Hc].
-      * destruct (is_cancel e); [apply nstab_refl|]. eapply nstab_trans; [apply Ha|apply Hc].
-    + destruct (is_cancel e); [apply Hc|]. eapply nstab_trans; [apply Ha|apply Hc].
+      * destruct (is_cancel e); [apply Hc|]. eapply nstab_trans; [apply Ha|apply Hsc].
+      * destruct (is_cancel e); [apply Hc|]. eapply nstab_trans; [apply Ha|apply Hsc].
+      * destruct (is_cancel e); [apply nstab_refl|]. eapply nstab_trans; [apply Ha|apply Hsc].
+    + destruct (is_cancel e); [apply Hc|]. eapply nstab_trans; [apply Ha|apply Hsc].
   - destruct (k_startfut (tasks s0 t)) as [f|].
     + destruct (f_st (futs s4 f)).
       * apply nstab_fc.
-      * destruct (is_cancel e); [apply Hc|]. eapply nstab_trans; [apply Ha|apply Hc].
-      * destruct (is_cancel e); [apply Hc|]. eapply nstab_trans; [apply Ha|apply Hc].
-      * destruct (is_cancel e); [apply nstab_refl|]. eapply nstab_trans; [apply Ha|apply Hc].
-    + destruct (is_cancel e); [apply Hc|]. eapply nstab_trans; [apply Ha|apply Hc].
+      * destruct (is_cancel e); [apply Hc|]. eapply nstab_trans; [apply Ha|apply Hsc].
+      * destruct (is_cancel e); [apply Hc|]. eapply nstab_trans; [apply Ha|apply Hsc].
+      * destruct (is_cancel e); [apply nstab_refl|]. eapply nstab_trans; [apply Ha|apply Hsc].
+    + destruct (is_cancel e); [apply Hc|]. eapply nstab_trans; [apply Ha|apply Hsc].
   - destruct (k_startfut (tasks s0 t)) as [f|]; [|apply nstab_refl].
     destruct (f_st (futs s4 f)); try apply nstab_refl. apply nstab_fc.
 Qed.
